@@ -170,6 +170,11 @@ _logged = []
 def _log_observer(ev):
     lvl = getattr(ev.get("log_level"), "name", "")
     if ev.get("isError") or lvl in ("error", "critical"):
+        if str(ev.get("log_format") or ev.get("why") or "").startswith("Unhandled error in Deferred") or (
+                ev.get("log_namespace") == "twisted.internet.defer" and "debugInfo" in ev):
+            # emitted from Deferred.__del__: when it appears depends on reference counting / the cycle collector,
+            # not on the schedule, so it can neither be part of a state key nor feed an oracle
+            return
         w = CTX.world
         f = ev.get("failure") or ev.get("log_failure")
         if f is not None:
